@@ -43,8 +43,12 @@ def main():
             # make -k is not used: the first failing file is what matters; the
             # property's own obligations are decided by check_props below
             ctx.notes.append("make reported an error: " + log.strip()[-600:])
-            # try to at least build what this property needs
-            core.build(targets=getattr(mod, "TARGETS", [f"Props/{cid}.vo"]))
+            # build what this property needs; if THAT fails, a proof obligation of this property (or the
+            # regenerated data it rests on) no longer checks -- compiled files on disk are stale and
+            # nothing they say is believed
+            ok2, log2 = core.build(targets=getattr(mod, "TARGETS", [f"Props/{cid}.vo"]))
+            if not ok2:
+                ctx.proof_failures.append("the proof obligations of this property no longer build: " + log2.strip()[-900:])
     bad = core.source_scan()
     if bad:
         ctx.proof_failures.append("forbidden constructs in the development: " + "; ".join(bad[:10]))
